@@ -84,7 +84,8 @@ structure Session where
   details : Dict
   roles : Roles
   isLocal : Bool
-  nextInv : Nat := 0                 -- `Session.IDGen` (invocation ids towards this callee)
+  cap : Nat := 64                    -- capacity of the router→client queue
+  stalled : Bool := false            -- the client has stopped reading
   deriving Inhabited
 
 def Session.hasRole (s : Session) (role : String) : Bool :=
@@ -204,21 +205,5 @@ structure Config where
   authz : Option (List AuthzRule) := none
   history : List (String × String × Nat) := []     -- (topic, match, limit)
   deriving Inhabited
-
-structure Realm where
-  cfg : Config := {}
-  broker : Broker := {}
-  dealer : Dealer := {}
-  clients : List Session := []                 -- `clients`, attached non-meta sessions
-  testaments : List (SessKey × TBucket) := []
-  metaProcs : List (Nat × String) := []        -- `metaProcMap`: registration id → procedure
-  metaS : Session := { key := metaKey, details := [("authrole", .str "trusted")], roles := [], isLocal := true }
-  now : Nat := 0
-  pubCount : Nat := 0                          -- publication ids drawn so far
-  closed : Bool := false
-  deriving Inhabited
-
-def Realm.session? (r : Realm) (k : SessKey) : Option Session :=
-  if k = metaKey then some r.metaS else r.clients.find? (fun s => s.key == k)
 
 end Nexus.L2
